@@ -4,4 +4,5 @@ let () = Driver.main [
   { Driver.name = "osync"; run = osync_run; judge = osync_judge };
   { Driver.name = "psync"; run = psync_run; judge = psync_judge };
   { Driver.name = "idle"; run = idle_run; judge = idle_judge };
+  { Driver.name = "rxwake"; run = rxwake_run; judge = rxwake_judge };
 ]
